@@ -388,3 +388,17 @@ package lang
 //@   at call ConvertGoType#1 assert imp($idx >= len(p.Parameters.params) && mfd.Parameters[$idx].Optional, mfd.Parameters[$idx].HasDefault && unbox(arg0, string) == mfd.Parameters[$idx].Default)
 //@   at call (*Variables).Set#1 assert arg2 == mfd.Parameters[$idx].Name && arg3 == v && arg4 == mfd.Parameters[$idx].DataType && errǂ2 == nil
 //@   ensures imp(result == nil, true)
+
+// The signature parser never indexes outside its parameter table for any signature
+// text, and a successful parse yields named, typed parameters with no mandatory
+// parameter after an optional one.
+//@ func ParseMxFunctionParameters [C23 C19]
+//@   check index, nil
+//@   loop 1 invariant counter == len(mfp) - 1 && counter >= 0
+//@   loop 2 invariant len(mfp) >= 1 && $idx + 1 <= len(mfp)
+//@   loop 2 invariant forall(k, 0, $idx + 1, !streq(mfp[k].Name, "") && !streq(mfp[k].DataType, ""))
+//@   loop 2 invariant forall(k, 0, $idx + 1, imp(!optional, !mfp[k].Optional))
+//@   loop 2 invariant forall(k, 1, $idx + 1, imp(mfp[k-1].Optional, mfp[k].Optional))
+//@   ensures imp(result1 == nil, len(result) >= 1)
+//@   ensures imp(result1 == nil, forall(k, 0, len(result), !streq(result[k].Name, "") && !streq(result[k].DataType, "")))
+//@   ensures imp(result1 == nil, forall(k, 1, len(result), imp(result[k-1].Optional, result[k].Optional)))
